@@ -14,7 +14,9 @@ mod __verif_c05_app {
     static mut PRE: bool = false;
     static mut ROLLS: bool = false;
     static mut NBYTES: usize = 0;
-    fn ev(e: u8) { unsafe { if TN < 8 { TRACE[TN] = e; } TN += 1; } }
+    static mut MTX: *const Mutex<Option<LogWriter>> = std::ptr::null();
+    static mut UNLOCKED_EVENTS: u8 = 0;
+    fn ev(e: u8) { unsafe { if TN < 8 { TRACE[TN] = e; } TN += 1; if !(*MTX).is_locked() { UNLOCKED_EVENTS += 1; } } }
     fn m_write(o: &mut OpenOptions, b: bool) -> &mut OpenOptions { o }
     fn m_open<P: AsRef<Path>>(_o: &OpenOptions, _p: P) -> io::Result<File> { ev(3); unsafe { Ok(File::from_raw_fd(7)) } }
     fn m_metadata(_f: &File) -> io::Result<fs::Metadata> { Ok(unsafe { std::mem::zeroed() }) }
@@ -61,10 +63,13 @@ mod __verif_c05_app {
         unsafe { PRE = pre; ROLLS = rolls; NBYTES = nbytes; TN = 0; TRACE = [0; 8]; }
         let w0 = LogWriter { file: BufWriter::with_capacity(1024, unsafe { File::from_raw_fd(7) }), len: len0 };
         let app = RollingFileAppender { writer: Mutex::new(Some(w0)), path: PathBuf::from("f"), append: true, encoder: Box::new(Enc), policy: Box::new(Pol) };
+        unsafe { MTX = &app.writer; UNLOCKED_EVENTS = 0; }
         let rec = Record::builder().build();
         let r = Append::append(&app, &rec);
         let (t, n) = unsafe { (TRACE, TN) };
         assert!(r.is_ok(), "append#post Ok when every step succeeds");
+        assert!(unsafe { UNLOCKED_EVENTS } == 0, "append#post the writer lock is held across policy, reopen, encode and flush");
+        assert!(!app.writer.is_locked(), "append#post the writer lock is released when the call returns");
         kani::cover!(pre && rolls, "pre-process policy that rolls");
         if pre {
             if rolls { assert!(n == 4 && t[0] == 1 && t[1] == 3 && t[2] == 2 && t[3] == 4, "append#post pre-process: policy, then reopen after the roll, then the record, then flush"); }
